@@ -20,6 +20,9 @@ const INPUTS = {
   notmod: { file: '/p/a.js', code: 'function f(a) {\n  return 1 // nothing to do\n}\n' },
   syntax: { file: '/p/c.js', code: 'function f( { return' },
   cancelled: { file: '/p/d.js', code: 'function f(a) { const __datadog_p_0 = 1; return a + g() }' },
+  // a reserved-prefix name in a position only the per-identifier check sees (a parameter), for two prefixes
+  param_p: { file: '/p/n.js', code: 'function f(__datadog_p_0, a) { return a() + 1 }' },
+  param_zz: { file: '/p/o.js', code: 'function f(__datadog_zz_0, a) { return a() + 1 }' },
   chained: { file: '/p/e.js', code: 'function f(a, b) {\n  return `${a}${b}`\n}\n//# sourceMappingURL=data:application/json;base64,' + b64(MAP_A) },
   notmod_map: { file: '/p/f.js', code: 'const x = 1;\n//# sourceMappingURL=data:application/json;base64,' + b64(MAP_B) },
   twocomments: { file: '/p/g.js', code: 'function f(a, b) { return a + b } //# sourceMappingURL=data:application/json;base64,' + b64(MAP_A) + '\nfunction g(c) { return c + 1 }\n//# sourceMappingURL=data:application/json;base64,' + b64(MAP_B) },
@@ -38,12 +41,16 @@ const DEFAULT_VERBOSITY = Object.assign({}, BASE); delete DEFAULT_VERBOSITY.tele
 const EMPTY_PREFIX = Object.assign({}, BASE, { localVarPrefix: '' })
 const INSTANCES = { R1: BASE, R2: BASE, R3: NOPREFIX, R4: OTHER, R5: DEFAULT_VERBOSITY, R6: EMPTY_PREFIX }
 
+// a second instance with the same configuration: the inputs that leave something behind if anything does
+const R2_INPUTS = ['mod', 'notmod', 'syntax', 'cancelled', 'chained', 'twocomments', 'long', 'ext_b', 'param_p', 'literals']
+// symbols of the depth-4 search of the thorough tier (the full alphabet is searched to depth 3)
+const CORE = new Set(['R1:mod', 'R1:notmod', 'R1:syntax', 'R1:cancelled', 'R1:chained', 'R1:notmod_map', 'R1:twocomments', 'R1:twocomments_last_missing', 'R1:literals', 'R1:long', 'R1:ext_a', 'R1:ext_b', 'R1:param_p', 'R1:manyliterals', 'R2:mod', 'R2:cancelled', 'R2:chained', 'R2:long', 'R2:ext_b', 'R3:mod', 'R4:mod', 'R4:param_p', 'R4:param_zz', 'LOG:DEBUG', 'LOG:ERROR', 'R5:mod', 'R6:mod'])
 function alphabet (tier) {
   const out = []
-  for (const inp of Object.keys(INPUTS)) { out.push('R1:' + inp); out.push('R2:' + inp) }
+  for (const inp of Object.keys(INPUTS)) { out.push('R1:' + inp); if (R2_INPUTS.includes(inp)) out.push('R2:' + inp) }
   out.push('R3:mod'); out.push('R3:long')
   // a rewriter with a DIFFERENT configuration interleaved with the others
-  out.push('R4:mod'); out.push('R4:long'); out.push('R4:chained')
+  out.push('R4:mod'); out.push('R4:long'); out.push('R4:chained'); out.push('R4:param_p'); out.push('R4:param_zz')
   // what another rewriter's setLogger does to the process (process-wide `log` logger and maximum level)
   out.push('LOG:DEBUG'); out.push('LOG:ERROR')
   // default (INFORMATION) verbosity next to them
@@ -56,8 +63,15 @@ function alphabet (tier) {
 async function build (tier) {
   const h = tier === 'thorough' ? 4 : 3
   const alpha = alphabet(tier)
-  const r = histories(alpha, h)
+  const r = histories(alpha, 3)
   const leaves = r.histories.map((hist) => ({ key: hist.join(' '), hist }))
+  if (tier === 'thorough') {
+    const core = alpha.filter((x) => CORE.has(x))
+    const r4 = histories(core, 4)
+    const seen = new Set(leaves.map((l) => l.key))
+    for (const hist of r4.histories) { const key = hist.join(' '); if (!seen.has(key)) leaves.push({ key, hist }) }
+    for (const k of Object.keys(r4.stats)) r.stats[k] = (r.stats[k] || 0) + r4.stats[k]
+  }
   // repeated single calls (same call 25x in one process)
   for (const a of alpha) { leaves.push({ key: 'repeat ' + a, hist: Array(25).fill(a) }); r.stats.states++; r.stats.transitions++ }
   // the JavaScript wrappers (main.js) keep module-level state too: histories over {CacheRewriter, NonCacheRewriter}
@@ -67,7 +81,7 @@ async function build (tier) {
   const rj = histories(jsAlpha, tier === 'thorough' ? 4 : 3)
   for (const hist of rj.histories) leaves.push({ fam: 'js', key: 'js ' + hist.join(' '), hist })
   for (const k of Object.keys(rj.stats)) r.stats[k] = (r.stats[k] || 0) + rj.stats[k]
-  return { leaves, stats: r.stats, bound: { history_length_h: h, alphabet_size: alpha.length, repeats: 25, js_alphabet_size: jsAlpha.length }, alphabets: { calls: alpha, js_calls: jsAlpha } }
+  return { leaves, stats: r.stats, bound: { history_length_full_alphabet: 3, history_length_core_alphabet: h, core_alphabet_size: tier === 'thorough' ? alpha.filter((x) => CORE.has(x)).length : 0, alphabet_size: alpha.length, repeats: 25, js_alphabet_size: jsAlpha.length }, alphabets: { calls: alpha, js_calls: jsAlpha } }
 }
 
 function reqOf (sym) {
@@ -179,6 +193,6 @@ module.exports = {
   check,
   inflight: 4,
   rule: 'leaf = history (sequence of (rewriter instance, input) calls, length <= h, plus each call repeated 25x); each history runs in its own fresh process; non-trivial = every history (each compares >= 1 call with an independent fresh-process reference); distinct by the sequence',
-  explanation: 'breadth-first enumeration of ALL call histories up to length h over a 39-symbol alphabet (modified / not modified / syntax error / cancelled / chained / two map comments / literal-heavy / multi-block inputs on two same-config instances and one default-prefix instance); invariant after every call: result == fresh single call',
+  explanation: 'breadth-first enumeration of ALL call histories up to length 3 over the full alphabet (thorough: also up to length 4 over a 27-symbol core alphabet) (modified / not modified / syntax error / cancelled / chained / two map comments / literal-heavy / multi-block inputs on two same-config instances and one default-prefix instance); invariant after every call: result == fresh single call',
   assumptions: ['native process stands in for the wasm instance (process-wide statics behave alike)', 'contents under a default (random) prefix are compared after renaming __datadog_[a-z]{6}_ consistently', 'literal lists compared as sets (hash-map order is not part of the result)']
 }
